@@ -7,7 +7,10 @@ MANIFEST = dict(
     text="Lean theorems (option_overrides, header_decides, neither_is_generic, unknown_header_is_error, targetFromStr_ok_iff, "
          "option_eq_header) over a model of Target::from_str and the dialect decision of compile_query, with the dialect enumeration "
          "regenerated from dialect.rs on every run; tied to the code by running the full option x header matrix and name mutations "
-         "through the real compiler and the model.",
+         "through the real compiler and the model, over a corpus of dialect dependent programs (tools/c18corpus.py: every construct "
+         "with a per-dialect translation, s-strings used as relations over a grid of dialect specific SQL syntax x pipeline position, "
+         "random compositions): output under (option A, header B) = output under option A alone, output under header A = output "
+         "under option A, RQ identical under every header, signature comment and header-line spelling do not matter.",
     note="the theorem option_eq_header speaks about any SQL generator that is a function of (RQ, chosen dialect); that the real "
          "generator reads the header only through this decision is validated by the exhaustive matrix run, not proved.",
     technique="Lean 4 proof over regenerated dialect table + exhaustive option x header correspondence", ref="4/C18")
@@ -97,71 +100,181 @@ def run(ctx):
             ctx.oracle_failure(None, f"Target::from_str({s!r}) {'accepted' if 'ok' in i else 'rejected'}", {"op": "target_from_str", "name": s, "observed": i})
     ctx.obligation("correspondence: Target::from_str = Model.targetFromStr on names and mutations", nbad == 0, f"{len(strs)} strings")
 
-    # 3. matrix on programs
-    reqs, meta = [], []
-    for p in progs:
-        for o in options:
-            reqs.append({"op": "compile", "prql": p, **({"target": o} if o else {})}); meta.append((p, o, None, "base"))
-        for (o, h) in cells:
-            if not hdr_ok(h) or h is None:
-                continue
-            reqs.append({"op": "compile", "prql": f"prql target:{h}\n{p}", **({"target": o} if o else {})}); meta.append((p, o, h, "cell"))
-        for h in headers:
-            if hdr_ok(h):
-                reqs.append({"op": "rq", "prql": (f"prql target:{h}\n" if h else "") + p}); meta.append((p, None, h, "rq"))
-    ans = vh_batch(reqs)
-    base, rqs = {}, {}
-    for (p, o, h, kind), a in zip(meta, ans):
-        if kind == "base":
-            base[(p, o)] = a
+    # 3. matrix on programs.  The fixed list and the construct corpus get the full matrix; the s-string-relation grid and the random
+    #    compositions get (quick tier) every header without option, every header through the resolver, and for every option a window
+    #    of 4 headers that rotates with the program index (all (option, header) pairs every 4 programs); thorough: full matrix.
+    import c18corpus, os
+    dump = open(os.environ["C18_DUMP"], "w") if os.environ.get("C18_DUMP") else None
+    orig_fail = ctx.oracle_failure
+
+    def fail(fid, what, rep, **kw):
+        if dump:
+            dump.write(json.dumps({"id": fid, "what": what, "replay": rep}) + "\n")
+        return orig_fail(fid, what, rep, **kw)
+    H = [h for h in headers if h is not None and hdr_ok(h)]
+    feats, missing = c18corpus.features(vlib.REPO, dialects)
+    ctx.obligation("corpus: a call shape for every std function that a dialect module of std.sql.prql overrides", not missing, str(missing))
+    srel = c18corpus.sstring_relations(ctx.tier)
+    rnd = c18corpus.random_programs(ctx.rng, 200 if ctx.tier == "thorough" else 60)
+    plan = [("fixed", "fixed%d" % i, p, True) for i, p in enumerate(progs)] + [("construct", t, p, True) for t, p in feats] + \
+           [("sstring-relation", t, p, ctx.tier == "thorough") for t, p in srel] + [("random", t, p, ctx.tier == "thorough") for t, p in rnd]
+    ctx.rule += ("; programs = the fixed list + one program per dialect dependent construct (c18corpus.FEATURES, every std function overridden "
+                 "in a dialect module) + s-strings used as relations (grid of dialect specific SQL syntax x position in the pipeline) + random "
+                 "compositions; every program is also lowered to RQ under every header (must be identical)")
     nbad = 0
-    for (p, o, h, kind), a in zip(meta, ans):
-        if kind == "rq":
-            # T3: acceptance by the resolver does not depend on the header
-            r = a.get("rq")
-            if r is not None:
-                r = strip_spans(json.loads(json.dumps(r))); r.get("def", {}).pop("other", None)
-                key = json.dumps(r, sort_keys=True)
+    nprog = {}
+    CH = 48
+    for c0 in range(0, len(plan), CH):
+        chunk = plan[c0:c0 + CH]
+        reqs, meta = [], []
+        for k, (fam, tag, p, full) in enumerate(chunk, c0):
+            for o in options:
+                reqs.append({"op": "compile", "prql": p, **({"target": o} if o else {})}); meta.append((p, o, None, "base"))
+            if full:
+                mine = [(o, h) for o in options for h in H]
             else:
-                key = "ERR:" + json.dumps([e.get("reason") for e in a.get("errors", [])]) + str(a.get("panic", ""))
-            first = rqs.setdefault(p, (h, key))
-            ctx.case(("rq", p, h), nontrivial="rq" in a)
-            if first[1] != key:
-                ctx.oracle_failure(None, f"resolver result differs between header {first[0]!r} and {h!r}",
-                                   {"prql": p, "headers": [first[0], h], "op": "rq"})
-            continue
-        if kind != "cell":
-            continue
-        m = model.get((o, h))
-        ctx.case((p, o, h), nontrivial=("sql" in a) or (m or "").startswith("err"))
-        ctx.count(f"opt={'some' if o else 'none'},hdr={'any' if h == 'sql.any' else ('known' if h and h[4:] in dialects else 'unknown')}")
-        if len(ctx.samples) < 4 and "sql" in a and o is None:
-            ctx.sample({"prql": f"prql target:{h}\n{p}", "option": o, "model_choice": m, "sql": a["sql"][:120]})
-        if m is None:
-            continue
-        if m.startswith("ok "):
-            d = m[3:]
-            expect = base[(p, "sql." + d)]
-            same = (a.get("sql") == expect.get("sql")) and (("sql" in a) == ("sql" in expect))
-            if "sql" not in a and "sql" not in expect:
-                same = [e.get("reason") for e in a.get("errors", [])] == [e.get("reason") for e in expect.get("errors", [])] and a.get("panic") == expect.get("panic")
-            if not same:
-                nbad += 1
-                ctx.oracle_failure(None, f"option={o} header={h}: output differs from compiling under option sql.{d} alone",
-                                   {"prql": p, "option": o, "header": h, "expected_as": "sql." + d, "observed": a, "expected": expect})
-        else:
-            # the model says: error (unknown header consulted)
-            if "sql" in a:
-                nbad += 1
-                ctx.oracle_failure(None, f"unknown target {h!r} was consulted but compilation succeeded",
-                                   {"prql": p, "option": o, "header": h, "observed": a})
+                mine = [(None, h) for h in H]
+                for i, o in enumerate(options[1:]):
+                    mine += [(o, H[(3 * i + 4 * k + j) % len(H)]) for j in range(4)]
+            for (o, h) in mine:
+                reqs.append({"op": "compile", "prql": f"prql target:{h}\n{p}", **({"target": o} if o else {})}); meta.append((p, o, h, "cell"))
+            for h in [None] + H:
+                reqs.append({"op": "rq", "prql": (f"prql target:{h}\n" if h else "") + p}); meta.append((p, None, h, "rq"))
+            nprog[fam] = nprog.get(fam, 0) + 1
+        ans = vh_batch(reqs)
+        base, rqs = {}, {}
+        for (p, o, h, kind), a in zip(meta, ans):
+            if kind == "base":
+                base[(p, o)] = a
+        for (p, o, h, kind), a in zip(meta, ans):
+            if kind == "rq":
+                # T3: acceptance by the resolver - and the RQ it produces - does not depend on the header
+                r = a.get("rq")
+                if r is not None:
+                    r = strip_spans(json.loads(json.dumps(r))); r.get("def", {}).pop("other", None)
+                    key = json.dumps(r, sort_keys=True)
+                else:
+                    key = "ERR:" + json.dumps([e.get("reason") for e in a.get("errors", [])]) + str(a.get("panic", ""))
+                first = rqs.setdefault(p, (h, key))
+                ctx.case(("rq", p, h), nontrivial="rq" in a)
+                if first[1] != key:
+                    nbad += 1
+                    fail(None, f"resolver result differs between header {first[0]!r} and {h!r}",
+                                       {"prql": p, "headers": [first[0], h], "op": "rq"})
+                continue
+            if kind != "cell":
+                continue
+            m = model.get((o, h))
+            ctx.case((p, o, h), nontrivial=("sql" in a) or (m or "").startswith("err"))
+            ctx.count(f"opt={'some' if o else 'none'},hdr={'any' if h == 'sql.any' else ('known' if h and h[4:] in dialects else 'unknown')}")
+            if len(ctx.samples) < 4 and "sql" in a and o is None:
+                ctx.sample({"prql": f"prql target:{h}\n{p}", "option": o, "model_choice": m, "sql": a["sql"][:120]})
+            if m is None:
+                continue
+            if m.startswith("ok "):
+                d = m[3:]
+                expect = base[(p, "sql." + d)]
+                same = (a.get("sql") == expect.get("sql")) and (("sql" in a) == ("sql" in expect))
+                if "sql" not in a and "sql" not in expect:
+                    same = [e.get("reason") for e in a.get("errors", [])] == [e.get("reason") for e in expect.get("errors", [])] and a.get("panic") == expect.get("panic")
+                if not same:
+                    nbad += 1
+                    fail(None, f"option={o} header={h}: output differs from compiling under option sql.{d} alone",
+                                       {"prql": p, "option": o, "header": h, "expected_as": "sql." + d, "observed": a, "expected": expect})
+            else:
+                # the model says: error (unknown header consulted)
+                if "sql" in a:
+                    nbad += 1
+                    fail(None, f"unknown target {h!r} was consulted but compilation succeeded",
+                                       {"prql": p, "option": o, "header": h, "observed": a})
         # with neither option nor header-known: generic
-    for p in progs:
-        a, g = base[(p, None)], base[(p, "sql.generic")]
-        ctx.case((p, None, None))
-        if a != g:
-            ctx.oracle_failure(None, "no option, no header: output differs from generic", {"prql": p, "observed": a, "expected": g})
-    ctx.obligation("correspondence+oracle: (option x header) matrix agrees with Model.chooseDialect", nbad == 0, f"{len(cells)} cells x {len(progs)} programs")
+        for (fam, tag, p, full) in chunk:
+            a, g = base[(p, None)], base[(p, "sql.generic")]
+            ctx.case((p, None, None))
+            if a != g:
+                nbad += 1
+                fail(None, "no option, no header: output differs from generic", {"prql": p, "observed": a, "expected": g})
+            # how dialect dependent is the program: number of distinct outputs over the options
+            nd = len(set(json.dumps(base[(p, o)], sort_keys=True) for o in options))
+            ctx.count(f"{fam}: distinct outputs over the options = {'1' if nd == 1 else '2-3' if nd <= 3 else '4+'}")
+    for fam, n in nprog.items():
+        ctx.count(f"programs: {fam}", n)
+    ctx.obligation("correspondence+oracle: (option x header) matrix agrees with Model.chooseDialect", nbad == 0,
+                   f"{len(cells)} cells; programs: {nprog}")
+
+    # 4. the signature comment is the only thing that may tell option from header: the text before it is the unsigned output
+    sreqs, smeta = [], []
+    for p in DIALECT_PROGRAMS[:6] + [p for t, p in srel[:6]]:
+        for o in options:
+            for h in [None, "sql.any", "sql.mssql", "sql.postgres", "sql.oracle"]:
+                if o is None and h == "sql.oracle":
+                    continue
+                q = {"op": "compile", "prql": (f"prql target:{h}\n" if h else "") + p, **({"target": o} if o else {})}
+                sreqs += [q, {**q, "signature": True}]; smeta.append((p, o, h))
+    sans = vh_batch(sreqs)
+    nbad = 0
+    for i, (p, o, h) in enumerate(smeta):
+        plain, signed = sans[2 * i], sans[2 * i + 1]
+        ctx.case(("sig", p, o, h), nontrivial="sql" in signed)
+        if "sql" in plain and "sql" in signed:
+            body, sep, comment = signed["sql"].partition("-- Generated by PRQL compiler")
+            ok = sep != "" and body.rstrip() == plain["sql"].rstrip() and ("target:" in comment) == (o is not None) and (o is None or f"target:{o} " in comment)
+        else:
+            ok = ("sql" in plain) == ("sql" in signed)
+        if not ok:
+            nbad += 1
+            fail(None, f"option={o} header={h}: signed output is not the unsigned output plus a comment naming the option",
+                               {"prql": p, "option": o, "header": h, "observed": signed, "expected": plain})
+    ctx.obligation("oracle: signature comment is the only difference between signed and unsigned output", nbad == 0, f"{len(smeta)} cases")
+
+    # 5. spellings of the header line that say the same thing (other definitions next to target, comments, blank lines, spacing)
+    import re
+    ver = next((m.group(1) for a in sans if "sql" in a for m in [re.search(r"version:(\d+\.\d+)", a["sql"])] if m), None)
+    spell = [lambda t: f"prql   target:{t}\n\n\n", lambda t: f"# c\n\nprql target:{t} # c\n", lambda t: f"prql target : {t}\n"]
+    if ver:
+        spell += [lambda t: f'prql target:{t} version:"{ver}"\n', lambda t: f'prql version:"^{ver}" target:{t}\n']
+    sp_progs = DIALECT_PROGRAMS[:6] + [p for t, p in srel if t.endswith("pos0")][:10] + [p for t, p in feats][::12]
+    qreqs, qmeta = [], []
+    for p in sp_progs:
+        for i, d in enumerate(dialects):
+            o2 = "sql." + dialects[(i + 5) % len(dialects)]
+            for o in (None, o2):
+                qreqs.append({"op": "compile", "prql": p, "target": o or "sql." + d}); qmeta.append(None)
+                for k, f in enumerate(spell):
+                    qreqs.append({"op": "compile", "prql": f("sql." + d) + p, **({"target": o} if o else {})}); qmeta.append((p, o, d, k))
+    qans = vh_batch(qreqs)
+    nbad = 0
+    for i, mt in enumerate(qmeta):
+        if mt is None:
+            expect = qans[i]; continue
+        p, o, d, k = mt
+        a = qans[i]
+        ctx.case(("spelling", p, o, d, k), nontrivial="sql" in a)
+        same = a.get("sql") == expect.get("sql") and [e.get("reason") for e in a.get("errors", [])] == [e.get("reason") for e in expect.get("errors", [])]
+        if not same:
+            nbad += 1
+            fail(None, f"option={o}, header line {spell[k]('sql.' + d)!r}: output differs from compiling under option {o or 'sql.' + d} alone",
+                 {"prql": spell[k]("sql." + d) + p, "option": o, "expected_as": o or "sql." + d, "observed": a, "expected": expect})
+    ctx.obligation("oracle: equivalent spellings of the header line choose the same dialect", nbad == 0, f"{len(qmeta)} requests, version {ver}")
+
+
+    # 6. sensitivity of the s-string grid: a stage that parsed s-string relations with the parser of "the" dialect instead of the
+    #    generic one is only visible on texts that the two parsers treat differently; there must be such texts for every dialect
+    texts = [(t, q.replace("{{", "{").replace("}}", "}")) for t, q in c18corpus.select_texts(ctx.tier) if not t.startswith("interp")]
+    pans = vh_batch([{"op": "sqlparse", "dialect": d, "sql": q} for t, q in texts for d in dialects])
+    if pans and "bad_op" not in pans[0]:
+        pk = lambda a: ("ok", tuple(a["printed"])) if "printed" in a else ("err",)
+        gi = dialects.index("generic") if "generic" in dialects else 0
+        differ = {d: 0 for d in dialects}
+        for i in range(len(texts)):
+            row = pans[i * len(dialects):(i + 1) * len(dialects)]
+            for d, a in zip(dialects, row):
+                differ[d] += pk(a) != pk(row[gi])
+        for d, n in differ.items():
+            ctx.count(f"s-string grid texts parsed differently by sqlparser's {d} dialect than by its generic dialect", n)
+        weak = [d for d, n in differ.items() if d != "generic" and n < 5]
+        ctx.obligation("corpus: for every dialect the s-string grid has texts that its sqlparser dialect and the generic one parse differently",
+                       not weak, f"{len(texts)} texts; {differ}")
 
 
 def replay(obj):
